@@ -328,6 +328,18 @@ def generate(ctx, shard=0, nshards=1):
                 check_datetime(ctx, Epoch, py, pm, last, h, mi, s, 'leap_window')
             for t in (0.0, 0.001, 1.0, 30.0, 42.183, 42.184 + L, 43.185 + L, 69.0, 75.0):
                 check_datetime(ctx, Epoch, a, b, 1, 0, int(t // 60), t - 60 * int(t // 60), 'leap_window', exact_q=(t > 0.0005))
+        # Delta-T month by month over 1600..2150: from 1600 on every segment of the code is smooth in the decimal
+        # year (a month moves it by well under 0.1 s), so a step of 1 s or more between two consecutive months is a
+        # joint that jumps - wherever the code happens to put its joints
+        prev = None
+        for yy in range(1600, 2151):
+            for mm in range(1, 13):
+                out_ = run_impl(lambda: Epoch.tt2ut(yy, mm))
+                cur = tok_float(out_) if out_.startswith('f') else None
+                if prev is not None:
+                    okj = cur is not None and prev[2] is not None and abs(cur - prev[2]) < 1.0
+                    ctx.predicate('deltat_joint', okj, ['ym_step', prev[0], prev[1], yy, mm], [prev[2], cur], 'deltat_monthly_step')
+                prev = (yy, mm, cur)
         for v in hot_years:
             for yy in (v - 1, v, v + 1):
                 for m in range(1, 13):
@@ -432,6 +444,11 @@ def replay(case):
         check_table(ctx, Epoch, inp[1], inp[2], 'replay')
     elif kind == 'ym_dt':
         check_deltat(ctx, Epoch, inp[1], inp[2], 'replay')
+    elif kind == 'ym_step':
+        a = run_impl(lambda: Epoch.tt2ut(inp[1], inp[2]))
+        b = run_impl(lambda: Epoch.tt2ut(inp[3], inp[4]))
+        okj = a.startswith('f') and b.startswith('f') and abs(tok_float(a) - tok_float(b)) < 1.0
+        ctx.predicate('deltat_joint', okj, list(inp), [a, b], 'replay')
     elif kind == 'table':
         generate_table_only(ctx)
     elif kind == 'ym_any':
